@@ -82,7 +82,15 @@ def run_python(d):
         sol.map_pins({al: sts[c].pin[f"p{k}"]})
         names = names + [al]
     for i in d["mon"]:
-        sol.monitor_structure(sts[i], name=f"M{i}")
+        if (i + len(d["comps"])) % 2 == 0:
+            # through the helper of the active solver, first under a provisional name, then under the final one: the last
+            # declaration counts
+            with sol:
+                lk_ = netlib.lk
+                lk_.add_structure_to_monitors(sts[i], name=f"TMP{i}")
+                lk_.add_structure_to_monitors(sts[i], name=f"M{i}")
+        else:
+            sol.monitor_structure(sts[i], name=f"M{i}")
     kw = {"PS": d["ps_vals"][0]} if d.get("reread") else {}
     if d.get("flatten"):
         sol.flatten()
